@@ -180,7 +180,7 @@ class Classifier:
         # Calculate the displacement tensor for the original system. It will be
         # reused in multiple sections.
         cell = system.get_cell()
-        distances = matid.geometry.get_distances(system)
+        distances = matid.geometry.get_distances(system, self.radii)
 
         # If pos_tol_mode or delaunay_threshold_mode is relative, get the
         # average distance to closest neighbours
@@ -209,7 +209,10 @@ class Classifier:
 
         # Get the system dimensionality
         dimensionality = matid.geometry.get_dimensionality(
-            system, self.cluster_threshold, distances.dist_matrix_radii_mic
+            system,
+            self.cluster_threshold,
+            distances.dist_matrix_radii_mic,
+            radii=self.radii,
         )
         if dimensionality is None:
             return Unknown(input_system)
